@@ -220,6 +220,16 @@ Runs == << [mode |-> "call", ap |-> AP0, hookret |-> FALSE], [mode |-> "call", a
            [mode |-> "fallback", ap |-> AP2, hookret |-> FALSE], [mode |-> "fallback", ap |-> AP0, hookret |-> TRUE],
            [mode |-> "cfallback", ap |-> AP1, hookret |-> FALSE] >>
 
+\* histories of dispatches on ONE mapper instance (round 7, C04_DHist / C04_DHJudge):
+\* extra arguments by position in the history - all different, so that a memoising mapper's
+\* result cache (C04_Hist) is never consulted - and how a history is replayed:
+\* mapper class x entry point by position x hook overridden
+HArgs == << AP0, AP1, AP2 >>
+HRuns == << [mapper |-> "plain", pat |-> << "call", "call", "call" >>, hookret |-> FALSE],
+            [mapper |-> "plain", pat |-> << "fallback", "call", "call" >>, hookret |-> TRUE],
+            [mapper |-> "plain", pat |-> << "call", "fallback", "call" >>, hookret |-> FALSE],
+            [mapper |-> "cached", pat |-> << "call", "call", "call" >>, hookret |-> TRUE] >>
+
 \* ---------------------------------------------------------------- judging one observation
 \* o: [first: name of the first handler that ran ("" none), a, k: the extra arguments it
 \*     received, n: how many handler invocations were logged, seq: their names in order,
